@@ -802,3 +802,16 @@ Lemma avg_float32_refuted :
   avg_model F32 None [2; 2; 1] a = Ok [[[[NF (of_bits b32 1056964608)]]]] /\         (* 0.5 *)
   avg_spec F32 None 2 2 1 1 1 2 2 (map4 num2Q a) = [[[[NF (of_bits b32 1056964609)]]]].  (* 0.5 + 2^-24 *)
 Proof. split; vm_compute; reflexivity. Qed.
+
+(* uint8 / uint16 / uint32: exact for ALL values of the type *)
+Corollary avg_exact_small_uint : forall dt k (oc : option Z) fs nc nz ny nx (V : arr4 Z),
+  small_uint dt = true -> check_factors_avg fs = true -> 3 <= k <= 20 ->
+  optP (Pu 3) oc -> rect4 nc nz ny nx V -> Forall4 (in_range dt) V ->
+  avg_model dt (option_map (fl k) oc) fs (map4 NI V) =
+    Ok (avg_spec dt (option_map (gridQ k) oc) (fac fs 0) (fac fs 1) (fac fs 2) nc nz ny nx
+                 (map4 inject_Z V)).
+Proof.
+  intros dt k oc fs nc nz ny nx V Hd Hf Hk Ho Hr HV.
+  apply avg_exact; try assumption. apply small_uint_is_uint. exact Hd.
+  eapply Forall4_impl; [|exact HV]. intros v Hv. apply (small_uint_small_val dt); assumption.
+Qed.
